@@ -317,7 +317,7 @@ def txt(e: E) -> str:
             return '()'
         return ' '.join(txt_item(i) for i in e.items)
     if isinstance(e, Choice):
-        return ' | '.join(txt(o) for o in e.opts)
+        return ' | '.join(f'({txt(o)})' if isinstance(o, Choice) else txt(o) for o in e.opts)
     if isinstance(e, Group):
         return f'({txt(e.e)})'
     if isinstance(e, SkipGroup):
@@ -432,7 +432,8 @@ def to_model(g: Grammar, name='T', **settings):
             return peg.Sequence(sequence=[peg.Group(exp=b(i)) if isinstance(i, (Choice, Seq)) else b(i)
                                           for i in e.items])
         if isinstance(e, Choice):
-            return peg.Choice(options=[peg.Option(exp=b(o)) for o in e.opts])
+            return peg.Choice(options=[peg.Option(exp=peg.Group(exp=b(o)) if isinstance(o, Choice) else b(o))
+                                       for o in e.opts])
         if isinstance(e, Group):
             return peg.Group(exp=b(e.e))
         if isinstance(e, SkipGroup):
@@ -494,5 +495,19 @@ def to_model(g: Grammar, name='T', **settings):
 
     rules = [peg.Rule(name=r.name, exp=b(r.body), decorators=list(r.decorators),
                       params=tuple(r.params), kwparams=dict(r.kwparams)) for r in g.rules]
-    return peg.Grammar(name, rules, directives=dict(g.directives), keywords=tuple(g.keywords),
+    return peg.Grammar(name, rules, directives=directive_values(g.directives), keywords=tuple(g.keywords),
                        **settings)
+
+
+def directive_values(d: dict) -> dict:
+    """directive values as the grammar-text route delivers them (booleans, None, strings)"""
+    out = {}
+    for k, v in d.items():
+        if v == 'True':
+            v = True
+        elif v == 'False':
+            v = False
+        elif v == 'None':
+            v = None
+        out[k] = v
+    return out
